@@ -190,10 +190,11 @@ def _plan(prop, T):
                 ord_random("dbg", "lookup", colls, 4800, T),
                 ord_random("rel", "lookup", colls, 4800, T),
                 ord_random("asan", "lookup", colls, 1600, T),
+                dict(flavour="rel", suite="big", args=dict(max_n=4000000 if T else 400000, probes="lookup", only_coll=tree), shards=16, timeout=3400 if T else 150),
                 miri("ord-random", 64, 8, T, mon="lookup", coll=colls, **MIRI_ORD),
             ],
             rule="evaluation = one get_value / is_empty compared with a BTreeMap reference (full sweep over the key universe after every delete in small universes; stored keys and neighbours in large ones), values carry unique ids and heap payloads; distinct non-trivial = distinct (reference key set, operation) + closed canonical shapes with >= 2 entries",
-            require={"lookup_compared_present": 200000, "lookup_compared_absent": 200000, "op_delete_present": 20000, "op_delete_absent": 2000, "op_clear": 500, "ledger_checks": 1000, "states": 1500},
+            require={"lookup_compared_present": 200000, "lookup_compared_absent": 200000, "op_delete_present": 20000, "op_delete_absent": 2000, "op_clear": 500, "ledger_checks": 1000, "states": 1500, "big_lookups": 100000, "max_entries_built": 300000},
             exhaustive_scope="every reachable shape over the listed key universes x delete of every key (present or absent) x insert of every absent key x lookup of every key",
             assumptions=["reference: std BTreeMap", "keys inserted only while absent"],
         )
@@ -248,6 +249,8 @@ def _plan(prop, T):
             dict(flavour="rel", suite="big", args=dict(max_n=400000, probes="kquery", nojudge=1), shards=4, timeout=3400 if T else 150),
             dict(flavour="rel", suite="big", args=dict(max_n=400000, probes="handle", nojudge=1), shards=4, timeout=3400 if T else 150),
             dict(flavour="rel", suite="big", args=dict(max_n=400000, probes="steps", nojudge=1), shards=4, timeout=3400 if T else 150),
+            dict(flavour="rel", suite="big", args=dict(max_n=400000, probes="lookup", nojudge=1), shards=4, timeout=3400 if T else 150),
+            dict(flavour="rel", suite="big", args=dict(max_n=400000, probes="held", nojudge=1), shards=4, timeout=3400 if T else 150),
             dict(flavour="dbg", suite="big", args=dict(max_n=270000, probes="clear", nojudge=1), shards=8, timeout=3400 if T else 150),
             miri("key-random", 72, 6, T, mon="none", coll="both", nojudge=1, **MIRI_KEY),
             miri("ord-random", 60, 6, T, mon="none", coll="maptree+settree+maplist+setlist+settree-int", nojudge=1, **MIRI_ORD),
@@ -363,10 +366,11 @@ def _plan(prop, T):
                 ord_closure("dbg", "held", T, held_depth=3 if T else 2),
                 ord_random("dbg", "held", "maptree+settree+maptree-int+settree-int", 4800, T, profile="handles-held-across-inserts,small-mixed,medium,clear-and-reuse"),
                 ord_random("rel", "held", "maptree+settree", 4800, T, profile="handles-held-across-inserts,medium", seed_offset=3),
+                dict(flavour="rel", suite="big", args=dict(max_n=4000000 if T else 400000, probes="held"), shards=16, timeout=3400 if T else 150),
                 miri("ord-random", 64, 8, T, mon="held", coll="maptree+settree", profile="handles-held-across-inserts,small-mixed", maxlen=40),
             ],
             rule="evaluation = one held handle re-checked after later insertions / lookups: value_by_index(handle) is still the same entry and first_index_less(key) == handle; distinct non-trivial = distinct (reference key set, number of held handles) + closed canonical shapes",
-            require={"held_handles_rechecked": 200000, "handles_taken": 50000, "states": 3000},
+            require={"held_handles_rechecked": 200000, "handles_taken": 50000, "states": 3000, "max_entries_built": 300000},
             exhaustive_scope="every reachable shape over the listed universes x a handle for every stored key x every sequence of 2 (thorough: 3) further insertions",
             assumptions=["handles are re-acquired after every deletion / clear, as the property allows"],
         )
@@ -377,9 +381,9 @@ def _plan(prop, T):
                 dict(flavour="dbg", suite="ord-closure", args=dict(mon="lookup,handle,steps", fault=1, sets=("maptree:7:8,settree:7:0,maplist:7:0,setlist:7:1,maptree:6:1,settree:6:9,maplist:8:8,setlist:8:0" if T else "maptree:6:8,settree:6:0,maplist:6:0,setlist:6:1,maptree:5:1,settree:5:9,maplist:7:8,setlist:7:0")), shards=8, timeout=3000 if T else 120),
                 dict(flavour="dbg", suite="key-closure", args=dict(mon="pred,get,export", fault=1, coll="tree", sets=("4:3:1,5:2:8,4:2:0,3:4:9" if T else "4:3:1,4:2:8,3:3:0,3:2:9")), shards=4, timeout=3000 if T else 120),
                 dict(flavour="dbg", suite="key-closure", args=dict(mon="pred,get,export", fault=1, coll="list", sets=("4:3:1,5:2:8,4:2:0,3:4:9" if T else "4:3:1,4:2:8,3:3:0,3:2:9")), shards=4, timeout=3000 if T else 120),
-                dict(flavour="dbg", suite="fault", args=dict(), shards=16, budget=2800 * 8 * (8 if T else 1)),
-                dict(flavour="rel", suite="fault", args=dict(), shards=16, budget=2800 * 8 * (8 if T else 1), seed_offset=13),
-                dict(flavour="asan", suite="fault", args=dict(), shards=8, budget=700 * 4 * (8 if T else 1), seed_offset=14),
+                dict(flavour="dbg", suite="fault", args=dict(), shards=16, budget=2800 * 4 * (8 if T else 1)),
+                dict(flavour="rel", suite="fault", args=dict(), shards=16, budget=2800 * 4 * (8 if T else 1), seed_offset=13),
+                dict(flavour="asan", suite="fault", args=dict(), shards=8, budget=700 * 2 * (8 if T else 1), seed_offset=14),
                 miri("fault", 7, 7, T, len=8, bulk=0),
             ],
             rule="evaluation = one injection point (history, operation index, callback index) enumerated exhaustively per history: the callback panics, the panic is caught, then structure + slot accounting are validated, observable contents must equal the reference before or after the operation, the rest of the history runs under all monitors, and payload drops must balance; distinct non-trivial = distinct (collection, operation, callback index, reference contents before)",
